@@ -494,7 +494,7 @@ var libRetAlias = map[string][]int{
 	"(*bytes.Buffer).Bytes": {0},
 }
 
-var libPurePkgs = map[string]bool{"math": true, "math/bits": true, "errors": true, "fmt": true, "strconv": true, "google.golang.org/protobuf/encoding/protowire": true}
+var libPurePkgs = map[string]bool{"log": true, "math": true, "math/bits": true, "errors": true, "fmt": true, "strconv": true, "google.golang.org/protobuf/encoding/protowire": true}
 
 func (a *modFn) callRet(c *ssa.Call, idx int) locSet {
 	com := c.Common()
